@@ -304,6 +304,9 @@ func newScenario(fix *fixture, rep *vh.Report, sc script) *scenario {
 			break
 		}
 		sb.out = out
+		if cap(out) != chanCap {
+			s.violate("C20/overflow/buffer-is-not-16", fmt.Sprintf("the subscription channel buffers %d responses; the stream must end when the reader is %d behind", cap(out), chanCap))
+		}
 		sb.emit("reset", "script", sc.Name, "sub", i)
 		s.subs = append(s.subs, sb)
 	}
@@ -789,6 +792,13 @@ func systematic() []script {
 							Class: "systematic", Subs: 1, Tail: tail, Offer: offer, Steps: st})
 					}
 				}
+			}
+			// the node's wiring: the header subscription ends (closes the feed) when the subscriber
+			// cancels; and a stop arriving together with a cancellation
+			for _, pair := range [][]string{{"cancel", "feedclose"}, {"feedclose", "cancel"}, {"stop", "cancel"}, {"feedclose", "stop"}} {
+				st := append(append([]step{}, base[:p]...), step{A: pair[0]}, step{A: pair[1]})
+				out = append(out, script{Name: fmt.Sprintf("sys-%s-%s+%s@%d", bn, pair[0], pair[1], p),
+					Class: "systematic", Subs: 1, Tail: "allfail", Defer: true, Steps: st})
 			}
 		}
 	}
